@@ -21,12 +21,51 @@ def path_facts(ctx, nid):
     from .common import local_aliases, unalias
 
     al = local_aliases(ctx.fi.node)
+    fn = ctx.fi.node
+    smap = posmap = None
+
+    def flow_unalias(test):
+        """a local that is rebound LATER (`w = self.weights` ... `if w is None: ... else: w = w or ones`) still is the attribute it
+        was read from at the test: replaced by the plain attribute chain of the assignment that reaches the test"""
+        nonlocal smap, posmap
+        names = {x.id for x in ast.walk(test) if isinstance(x, ast.Name)} - set(al)
+        if not names:
+            return test
+        from .extra import _block_defs, _stmt_map, _target_names, reaching_assign
+        import copy
+
+        smap = smap or _stmt_map(fn)
+        posmap = posmap or _block_defs(fn)
+        at = smap.get(id(test))
+        if at is None:
+            return test
+        sub = {}
+        for nm in names:
+            st = reaching_assign(fn, at, nm, posmap)
+            if not isinstance(st, ast.Assign) or len(st.targets) != 1:
+                continue
+            tg, v = st.targets[0], st.value
+            if isinstance(tg, ast.Tuple) and isinstance(v, ast.Tuple) and len(tg.elts) == len(v.elts):
+                v = next((vv for tt, vv in zip(tg.elts, v.elts) if isinstance(tt, ast.Name) and tt.id == nm), None)
+            elif not (isinstance(tg, ast.Name) and tg.id == nm):
+                v = None
+            if isinstance(v, ast.Attribute) and isinstance(v.value, ast.Name) and v.value.id in ctx.fi.params:
+                sub[nm] = v
+        if not sub:
+            return test
+
+        class T(ast.NodeTransformer):
+            def visit_Name(self, n):
+                return copy.deepcopy(sub[n.id]) if n.id in sub and isinstance(n.ctx, ast.Load) else n
+
+        return T().visit(copy.deepcopy(test))
+
     for t in cfg.nodes:
         if t.kind != "test":
             continue
         for lab, pol in (("t", True), ("f", False)):
             if cfg.edge_dominates(t.id, lab, nid) and nid in cfg.live_nodes() and any(l == lab for _, l in t.succ):
-                c = unalias(t.ast, al)
+                c = unalias(flow_unalias(t.ast), al)
                 parts = [c]
                 if isinstance(c, ast.BoolOp) and ((isinstance(c.op, ast.And) and pol) or (isinstance(c.op, ast.Or) and not pol)):
                     parts = c.values
